@@ -127,8 +127,31 @@ def _fun_tables(name, sort, small):
     return [dict(zip(keys, vals)) for vals in itertools.product(rd, repeat=len(keys))]
 
 
-def assignments(symbols, budget=20000):
-    """symbols: name -> sort (functions have FUN sorts).  Small domains, pruned to the budget."""
+def ground_values(t, out):
+    """Values of the ground sub-terms of t, by sort: the values a symbol has to be able to take for a comparison
+    with such a sub-term to discriminate."""
+    op, args, p = t
+    if op in ("FORALL", "EXISTS"):
+        return False
+    ground = op not in ("SYMBOL", "FUNCTION")
+    for a in args:
+        ground = ground_values(a, out) and ground
+    if ground:
+        try:
+            v = refsmt.evaluate(t, {})
+            so = refsmt.sort_of(t)
+            if so[0] in ("INT", "REAL", "STRING", "BV"):
+                out.setdefault(so, []).append(v)
+                if so[0] == "INT":
+                    out.setdefault(("REAL",), []).append(Fraction(v))
+        except Exception:
+            pass
+    return ground
+
+
+def assignments(symbols, budget=20000, extra=None):
+    """symbols: name -> sort (functions have FUN sorts).  Small domains (plus the `extra` values of the sort, the
+    ground values occurring in the compared terms), pruned to the budget."""
     names, doms = [], []
     nsym = len(symbols)
     for nm, so in sorted(symbols.items()):
@@ -137,7 +160,11 @@ def assignments(symbols, budget=20000):
             doms.append(_fun_tables(nm, so, True))
         else:
             names.append("sym:" + nm)
-            doms.append(refsem.domain(so, small=nsym > 3))
+            d = list(refsem.domain(so, small=nsym > 3))
+            for v in (extra or {}).get(so, [])[:8]:
+                if v not in d:
+                    d.append(v)
+            doms.append(d)
     total = 1
     for d in doms:
         total *= len(d)
@@ -160,8 +187,11 @@ def equivalent(a, b):
     refsmt.symbols_of(a, syms)
     refsmt.symbols_of(b, syms)
     n = 0
+    extra = {}
+    ground_values(a, extra)
+    ground_values(b, extra)
     try:
-        for asg in assignments(syms):
+        for asg in assignments(syms, extra=extra):
             try:
                 va = refsmt.evaluate(a, asg)
             except refsem.Undefined:
